@@ -366,6 +366,7 @@ impl Family for OrderFam {
             draw_seed: 1,
             stall: None,
             monitor: None,
+            open_barrier: false,
         };
         let run = c11::run_concurrent(&wc)?;
         c11::check_wire(&run)?;
